@@ -1,5 +1,6 @@
 // govc:pkg functions
 // govc:bound |text| <= 4, |pattern| <= 4 over the alphabet {'%', '_', 'a', 'b'} (exhaustive: 341 x 341 pairs) through ExprBridge.EvaluateExpression("x LIKE 'p'"); and |text|,|pattern| <= 3 through the column shapes d.x, d.inner.x (nested maps) and `col1`
+// govc:also C06 C20
 // Bounded stand-in (NOT a proof): the bridge's rewriting of LIKE into operators (convertLikeToFunction) followed by
 // evaluation, against the recursive definition of LIKE from the property statement.
 package functions
